@@ -13,14 +13,14 @@ type vr struct {
 
 type G struct {
 	tUnit, tNat, tSrv *Ty
-	intn   func(int) int
-	scopes []int
-	lin    bool
-	n      int
-	prog   *Program
-	mk     map[string]string
-	labels []string
-	sigs   []*Def
+	intn              func(int) int
+	scopes            []int
+	lin               bool
+	n                 int
+	prog              *Program
+	mk                map[string]string
+	labels            []string
+	sigs              []*Def
 	// collide: reuse binder names aggressively (exercise name coincidences)
 	collide bool
 }
@@ -69,7 +69,7 @@ func (g *G) randTy(d int) *Ty {
 func (g *G) label() string { return g.labels[g.intn(len(g.labels))] }
 
 func (g *G) pr(k Term) Term {
-	if g.intn(3) == 0 {
+	if g.intn(3) == 1 {
 		return &Print{L: g.label(), K: k}
 	}
 	return k
